@@ -279,10 +279,12 @@ def estimator_stats(cls, s):
         integ = np.concatenate([[0.0], np.cumsum(w)])
         st["norm"] = float(integ[-1])
         st["pmode_ratio"] = float(e(e.mode) / p.max())
-        xs = np.array([loc + q * sd for q in (-2.0, -1.0, 0.0, 1.0, 2.0)])
+        # the evaluation points are deliberately NOT sorted (and not a product of swaps of the sorted
+        # order): every value must belong to its own abscissa whatever the order of the array
+        xs = np.array([loc + q * sd for q in (0.0, 1.0, -2.0, 2.0, -1.0)])
         c = np.atleast_1d(e.cdf(xs))
         st["cdf_err"] = float(np.max(np.abs(c - np.interp(xs, x, integ))))
-        st["cdf_monotone"] = bool(np.all(np.diff(c) >= -1e-9))
+        st["cdf_monotone"] = bool(np.all(np.diff(c[np.argsort(xs)]) >= -1e-9))
         # moments of the estimator's own density, by brute force on the wide grid
         Z = integ[-1]
         xm = 0.5 * (x[1:] + x[:-1])
@@ -303,7 +305,7 @@ def estimator_stats(cls, s):
 def self_consistency_failures(st, name, heavy):
     bad = []
     sd = st["sd"]
-    if abs(st["norm"] - 1) > 0.02:
+    if abs(st["norm"] - 1) > 0.003:   # clean runs are within 1e-4 (measured); a stale normaliser moves it by several 1e-3 or more
         bad.append(f"{name}: density integrates to {st['norm']:.4f}")
     if st["cdf_err"] > 0.02 or not st["cdf_monotone"]:
         bad.append(f"{name}: cdf differs from the integral of the pdf by {st['cdf_err']:.3g}")
@@ -470,7 +472,8 @@ def run(rep: C.Report, tier: str) -> int:
 
     # ---- [R] metamorphic runs (tests)
     plan = [("kde", "normal", 400), ("kde", "gamma", 1500), ("kde", "t5", 700),
-            ("uni", "normal", 500), ("uni", "gamma", 2500), ("uni", "lognormal", 900)]
+            ("uni", "normal", 500), ("uni", "gamma", 2500), ("uni", "lognormal", 900),
+            ("uni", "normal", 4500)]      # >= 4000 points: UnimodalPdf fits a sub-sample first, then re-fits
     if not quick:
         plan += [("kde", "lognormal", 12000), ("uni", "t5", 800), ("uni", "normal", 20000), ("kde", "gamma", 300)]
     n_runs = 0
